@@ -128,11 +128,11 @@ fn exec_op(op: &str) -> String {
             md::rt::NEXT_TL.with(|n| {
                 n.set(Some(rt::Next { n: p[3].parse().unwrap(), ok: p[4] == "1", len: p[5].parse().unwrap(), ci: true, io: false }))
             });
-            let (wv, _, _) = corpus::WOULD[fi]();
+            let (wv, wsz, _) = corpus::WOULD[fi]();
             let e0 = rt::EXEC_TL.with(|e| e.get());
             let (k, r) = corpus::CALLS[fi](j);
             let e1 = rt::EXEC_TL.with(|e| e.get());
-            format!("ret={} {} exec={} would={}", hex(&k), hex(&r), e1 - e0, hex(&wv))
+            format!("ret={} {} exec={} would={} wsize={}", hex(&k), hex(&r), e1 - e0, hex(&wv), wsz)
         }
         "tag" => format!("count={}", cachelito_core::invalidate_by_tag(p[1])),
         "event" => format!("count={}", cachelito_core::invalidate_by_event(p[1])),
@@ -478,6 +478,11 @@ fn main() {
         let ptxt: Vec<String> = progs.iter().map(|p| p.join(";")).collect();
         let ftxt: Vec<String> = fns.iter().map(|f| f.idx.to_string()).collect();
         println!("P|{}|{}", ftxt.join(","), ptxt.join("||"));
+        {
+            // key table of the hot cache: the key each argument index renders to
+            let ks: Vec<String> = (0..6).map(|j| format!("{}={}", j, hex(&corpus::KEYS[fns[0].idx](j)))).collect();
+            println!("K|{}|{}", fns[0].idx, ks.join(","));
+        }
         // first half of the budget: random schedules (finds early-divergence bugs fast); second half: stateless
         // DFS, which reports `exhaustive=1` when it enumerates the whole schedule space within the budget
         let mut prefix: Vec<usize> = Vec::new();
@@ -504,6 +509,7 @@ fn main() {
                     cachelito_core::stats_registry::reset(&fns[0].name);
                 }
             }
+            println!("I|{}", quiescent(&fns));
             let run_t0 = Instant::now();
             let r = run_once(&ctl, &progs, &prefix, &mut rrng, None);
             runs += 1;
